@@ -143,6 +143,29 @@ fn run_t(segs: &[&str], pool: bool) -> String {
     s
 }
 
+// ---------------------------------------------------------------- J: direct HTTP/1 byte-stream entry points
+fn cls<T, E>(r: &Result<Option<T>, E>) -> char { match r { Ok(Some(_)) => 'S', Ok(None) => 'N', Err(_) => 'E' } }
+/// Http1Parser, Http1Processor and parse_http1_* on the same bytes; they must agree on Some / None / Err
+pub fn http1_direct(request: bool, d: &[u8]) -> (char, Option<String>) {
+    use huginn_net_http::http_common::HttpProcessor;
+    let parser = huginn_net_http::http1_parser::Http1Parser::new();
+    let proc_ = huginn_net_http::Http1Processor::new();
+    let (a, b, c) = if request {
+        (cls(&parser.parse_request(d)), cls(&proc_.process_request(d)), cls(&huginn_net_http::http1_process::parse_http1_request(d, &parser)))
+    } else {
+        (cls(&parser.parse_response(d)), cls(&proc_.process_response(d)), cls(&huginn_net_http::http1_process::parse_http1_response(d, &parser)))
+    };
+    let _ = (proc_.can_process_request(d), proc_.can_process_response(d), proc_.has_complete_data(d));
+    let msg = if a != b || a != c { Some(format!("the direct HTTP/1 entry points disagree: Http1Parser {} Http1Processor {} parse_http1_* {}", a, b, c)) } else { None };
+    (a, msg)
+}
+fn run_j(kind: &str, d: &[u8]) -> String {
+    let (a, msg) = http1_direct(kind == "q", d);
+    let mut s = format!("RET {}", a);
+    if let Some(m) = msg { s.push_str(&format!("\t!{}", m)); }
+    s
+}
+
 // ---------------------------------------------------------------- F / S: HTTP/2 frame splitter and payload parsers
 fn ftype_num(t: &huginn_net_http::Http2FrameType) -> u8 {
     use huginn_net_http::Http2FrameType::*;
@@ -290,6 +313,17 @@ fn entry_call(entry: &str, d: &[u8]) -> String {
         "s2" => { let _ = huginn_net_http::Http2Parser::new().parse_response(d); }
         "q1" => { let _ = huginn_net_http::http_process::HttpProcessors::new().parse_request(d); }
         "s1" => { let _ = huginn_net_http::http_process::HttpProcessors::new().parse_response(d); }
+        "d1" => { let _ = http1_direct(true, d); let _ = http1_direct(false, d); }
+        "d2" => {
+            use huginn_net_http::http_common::HttpProcessor;
+            let p = huginn_net_http::Http2Processor::new();
+            let _ = (p.can_process_request(d), p.can_process_response(d), p.has_complete_data(d));
+            let _ = p.process_request(d); let _ = p.process_response(d);
+            let parser = huginn_net_http::Http2Parser::new();
+            let _ = huginn_net_http::parse_http2_request(d, &parser);
+            let _ = parser.parse_frames_skip_preface(d);
+            let _ = huginn_net_http::http2_parser::is_http2_traffic(d);
+        }
         "db" => { let _ = Database::from_str(&String::from_utf8_lossy(d)); }
         "pt" | "pl" | "ph" => { return history(entry, &[d.to_vec()], &gen::default_probe(entry)); }
         _ => return "BADENTRY".into(),
@@ -419,6 +453,7 @@ fn run_inner(line: &str) -> String {
         "R" => run_r(&toks[1..]),
         "T" => run_t(&toks[1..], false),
         "TP" => run_t(&toks[1..], true),
+        "J" => run_j(toks[1], &data(toks[2])),
         "K" => {
             let mut x = huginn_net_http::Http2FingerprintExtractor::new();
             let mut out = vec!["RET".to_string()];
@@ -579,6 +614,7 @@ fn main() {
     match std::env::args().nth(1).as_deref() {
         Some("run") => parent_run(),
         Some("worker") => worker_main(),
+        Some("gen") => { std::panic::set_hook(Box::new(|_| {})); main_cli_post(gen::gen, run, post) } // verdicts of the real code are recorded under catch_unwind
         _ => main_cli_post(gen::gen, run, post),
     }
 }
